@@ -151,9 +151,12 @@ type Exec struct {
 	Policy   func(fn *ssa.Function) Policy
 	MaxDepth int
 	MaxPaths int
-	act      int
-	npaths   int
-	Problems []string
+	// TraceLoad, when set, makes loads from the selected addresses visible as
+	// "load" effects (used by the lock typestate rules).
+	TraceLoad func(addr *Term) bool
+	act       int
+	npaths    int
+	Problems  []string
 }
 
 func (x *Exec) problem(format string, a ...any) {
@@ -590,6 +593,10 @@ func (x *Exec) simple(fr *frame, ins ssa.Instruction, st *state) {
 		switch v.Op {
 		case token.MUL:
 			fr.env[v] = x.load(st, a, v.Type())
+			if x.TraceLoad != nil && x.TraceLoad(a) {
+				eff("load", "load", a)
+				st.effects[len(st.effects)-1].Res = fr.env[v]
+			}
 		case token.NOT:
 			if a.IsConst("true") {
 				fr.env[v] = constTerm("false")
